@@ -149,8 +149,9 @@ CHECKS["C09"] = dict(
     claim=("For every transition of the E2 history search (depth 2 quick / 3 thorough, D=1..2(3), tracked and trivial elements) EVERY single fault placement inside the operation is executed: the k-th allocation, element "
            "construction (default/copy/move/converting) or element assignment throws, for all k counted by an unarmed run of the same transition. Each placement runs in a forked child; afterwards: the exception reached the "
            "caller, registry/ledger are clean, every slot's extents agree with its live elements and owned block, nothing is outstanding beyond what the slots own, the slots can be assigned and compared, and nothing is "
-           "outstanding when the pool dies. The no-fault clauses (same-extent assignment, move and swap of resizable arrays do not allocate) are decided by the plain E2 search."),
-    jobs=lambda tier: fault_jobs(tier) + hist_jobs("C09", tier),
+           "outstanding when the pool dies. The no-fault clauses (same-extent assignment, move and swap of resizable arrays do not allocate) are decided by the plain E2 search; 'assignment through views does not allocate' by the C05 pair "
+           "enumeration with a heap-allocation counter (sanitizer malloc hook) around every view = view / elements() = / fill / swap / element_moved form."),
+    jobs=lambda tier: fault_jobs(tier) + hist_jobs("C09", tier) + ranks_jobs("assignmc", "san", tier, ranks=(1, 2, 3), extra_args=["--prop=C09", "--depth=%d" % (1 if tier == "quick" else 2)], shards_thorough=1),
     rule=HIST_RULE + " Fault mode: for each explored transition (history h, op o) with N fault opportunities inside o, the N runs 'replay h unarmed, run o with opportunity k armed' are all executed. evaluations = fault placements "
          "executed; distinct_nontrivial = placements whose fault was actually reached and thrown. Violation key = element kind | operation class | fault kind {alloc, elem-ctor, elem-assign} | symptom.",
     assumptions=HIST_ASSUME[:1] + ["element move operations may throw in this build (INSTR_THROWING_MOVE) so that every element operation is a fault site", "a child killed by std::terminate is the observation 'terminate'", "g++ 12 -O0 ASan+UBSan"],
